@@ -1,5 +1,13 @@
 import Bpmn.Driver.Util
 import Bpmn.Driver.C14
+import Bpmn.Driver.C13
+import Bpmn.Driver.C19
+import Bpmn.Driver.C15
+import Bpmn.Driver.C01
+import Bpmn.Driver.C03
+import Bpmn.Driver.C04
+import Bpmn.Driver.C20
+import Bpmn.Driver.C16
 /-!
 Line-protocol driver. stdin:
   case begin <family> <caseid> <params…>
@@ -13,6 +21,16 @@ open Bpmn.Driver
 def dispatch (family : String) (params lines : List String) : CaseResult :=
   match family with
   | "c14" => C14.check params lines
+  | "c13" => C13.check params lines
+  | "c19" => C19.check params lines
+  | "c15" => C15.check params lines
+  | "c01" => C01.check params lines
+  | "c03fn" => C03.checkFn params lines
+  | "c03" => C03.checkEng params lines
+  | "c04cond" => C04.checkCond params lines
+  | "c04" => C04.checkEng params lines
+  | "c20" => C20.check params lines
+  | "c16" => C16.check params lines
   | _ => { bad := [s!"unknown family {family}"] }
 
 structure Totals where
@@ -22,11 +40,16 @@ structure Totals where
   spec : Nat := 0
   bad : Nat := 0
   nontrivial : Nat := 0
+  skipped : Nat := 0
 
 def report (out : IO.FS.Stream) (cid : String) (r : CaseResult) (t : Totals) : IO Totals := do
   let mut t := { t with cases := t.cases + 1 }
   if r.nontrivial then t := { t with nontrivial := t.nontrivial + 1 }
-  if r.ok then
+  for d in r.infos.reverse do out.putStrLn s!"case {cid} info {d}"
+  if r.skipped then
+    t := { t with skipped := t.skipped + 1 }
+    out.putStrLn s!"case {cid} skipped"
+  else if r.ok then
     t := { t with ok := t.ok + 1 }
     out.putStrLn s!"case {cid} ok{if r.nontrivial then " nontrivial" else ""}"
   else
@@ -57,5 +80,5 @@ def main : IO UInt32 := do
   let inp ← IO.getStdin
   let out ← IO.getStdout
   let t ← loop inp out none #[] {}
-  out.putStrLn s!"summary cases={t.cases} ok={t.ok} diff={t.diff} spec={t.spec} bad={t.bad} nontrivial={t.nontrivial}"
+  out.putStrLn s!"summary cases={t.cases} ok={t.ok} diff={t.diff} spec={t.spec} bad={t.bad} nontrivial={t.nontrivial} skipped={t.skipped}"
   return 0
